@@ -1654,6 +1654,12 @@ class RawAlgorithmsMixIn:
         if out is None:
             raise NotImplementedError('should implement that')
 
+        # if y is a view of x then ybar already is the corresponding view of
+        # xbar; if reshape had to copy (non-contiguous x) the adjoint of the
+        # copy has to be added explicitly
+        if not numpy.may_share_memory(ybar_data, out):
+            out += numpy.reshape(ybar_data, out.shape)
+
         return numpy.reshape(out, x_data.shape)
 
     @classmethod
